@@ -1813,7 +1813,19 @@ impl<'a> Checker<'a>
                     self.insts[i].alive = true;
                     self.inst_entity_event(i as Inst)?;
                 }
-                Origin::World(_) | Origin::EntityWorld(_) => { self.insts[i].created = true; self.insts[i].alive = true; }
+                Origin::World(k) =>
+                {
+                    self.insts[i].created = true;
+                    self.insts[i].alive = true;
+                    if k != 0 && !prog0.wr_starting.is_empty()
+                    {
+                        // starting triggers (`add_world_reactor_with`)
+                        let t: Vec<MTrig> = prog0.wr_starting.iter().take(crate::harness::MAX_BUNDLE).map(|t| self.resolve(t)).collect();
+                        for x in &t { if !self.wr_keys[1].contains(x) { self.wr_keys[1].push(*x); } }
+                        self.register(i as Inst, Mode::Persistent, &t);
+                    }
+                }
+                Origin::EntityWorld(_) => { self.insts[i].created = true; self.insts[i].alive = true; }
                 _ => {}
             }
         }
